@@ -476,6 +476,10 @@ theorem insertAfterLoop_good2 {p : Nat} : ∀ (args : List Arg) (h h' : Heap) (a
   | cons a as ih =>
     intro h h' anchor hg hp hi
     simp only [insertAfterLoop] at hi
+    by_cases hself : isSelf anchor a = true
+    · simp only [hself, if_true] at hi
+      exact ih h h' anchor hg hp hi
+    simp only [hself, Bool.false_eq_true, if_false] at hi
     cases hc : extractArg h a with
     | error e => simp only [hc] at hi; cases hi
     | ok h1 =>
